@@ -120,6 +120,44 @@ fn inc_history<const R: usize>(key: &[u8], nonce: &[u8], steps: &[&str]) -> Vec<
                 };
                 None
             }),
+            // clf : continue on a FRESH context of the same phase that was overwritten through clone_from(&current)
+            "clf" => step(&mut out, || {
+                st = match std::mem::replace(&mut st, Inc::Done) {
+                    Inc::Aad(c) => {
+                        let mut f = Context::<R>::new(key, nonce12(nonce));
+                        f.clone_from(&c);
+                        Inc::Aad(f)
+                    }
+                    Inc::Enc(c) => {
+                        let mut f = Context::<R>::new(key, nonce12(nonce)).to_encryption();
+                        f.clone_from(&c);
+                        Inc::Enc(f)
+                    }
+                    Inc::Dec(c) => {
+                        let mut f = Context::<R>::new(key, nonce12(nonce)).to_decryption();
+                        f.clone_from(&c);
+                        Inc::Dec(f)
+                    }
+                    Inc::Done => panic!("HARNESS"),
+                };
+                None
+            }),
+            // ex.DATA.OUTLEN / dx.DATA.OUTLEN : a buffer-to-buffer call with a MISMATCHED output length; the refusal is logged and
+            // the history continues on the same context
+            "ex" | "dx" => {
+                let d = expand(p[1]);
+                let ol = usz(p[2]);
+                step(&mut out, || {
+                    let mut o = dirty(ol);
+                    match &mut st {
+                        Inc::Enc(c) => c.encrypt(&d, &mut o),
+                        Inc::Dec(c) => c.decrypt(&d, &mut o),
+                        _ => panic!("HARNESS"),
+                    }
+                    Some(hex(&o))
+                });
+                true
+            }
             // fin : finalize; for encryption a clone is finalized too (both tags are reported)
             "fin" => step(&mut out, || match std::mem::replace(&mut st, Inc::Done) {
                 Inc::Enc(c) => {
